@@ -3,7 +3,8 @@ CONSTANTS
   Task = {"t1", "t2", "t3", "t4", "t5", "t6"}
   Foreign = {"f1", "f2"}
   Name = {"n1", "n2", "n3"}
-  Ctx = {"c1", "c2"}
+  Ctx = {"c1", "c2", "c3"}
+  Roam = TRUE
   Fn = {"g1", "g2", "g3", "q1", "p1", "p2", "a1", "l1", "b1", "b2", "m1", "m2"}
   MethFn = {"m1", "m2"}
   MaxArg = 9
